@@ -225,23 +225,47 @@ theorem C16_row_selects_exactly (op : Op) (s : List Char) (t x : Int) (hp : pars
   refine ⟨(sites_string s t hp).2.2.1, ?_⟩
   cases op <;> simp [Op.eval]
 
+/-- **The per-zone index is exact.** Built with stride 1, `contains_ts` answers true exactly for
+the instants the zone holds — any instants, not only day-aligned ones. -/
+theorem C16_zti_exact (vals : List Int) (ts : Int) :
+    (ztiBuild vals 1).contains ts = true ↔ ts ∈ vals :=
+  zti_contains_stride1 vals ts
+
+/-- The stride `TemporalIndexBuilder` passes to `from_timestamps` — read from the source for the
+fixed `timestamp` field and for payload fields of every time type (datetime, date, optional) —
+is 1, so `C16_zti_exact` is about the index the code builds. -/
+theorem C16_zti_builder_stride :
+    Snel.Gen.C16.ztiStrideField = 1 ∧ Snel.Gen.C16.ztiStrideTimestamp = 1 := by decide
+
+/-- A day-wide stride is *not* exact: a `date` field may hold any instant (an RFC 3339 datetime
+or an epoch number stored into it keeps its time of day). A zone holding 2024-03-10T00:00:00Z
+and 2024-03-11T10:00:00Z, indexed with stride 86400, denies holding the second. -/
+theorem C16_zti_day_stride_fails :
+    (1710151200 : Int) ∈ [1710028800, 1710151200] ∧
+    (ztiBuild [1710028800, 1710151200] 86400).contains 1710151200 = false ∧
+    (ztiBuild [1710028800, 1710151200] 1).contains 1710151200 = true := by decide
+
 /-- **Selection at the zone level (partial).** If a zone holds a row whose stored instant
-satisfies the comparison with the literal's instant `t ≥ 0`, the per-zone temporal test keeps
-the zone. PARTIAL: `0 ≤ t`; the calendar in front of this test is C08's subject (its bucket
-ids are truncated to 32 bits and zones with a negative bound are never registered — the `zone`
-stream models both). -/
+satisfies the comparison with the literal's instant `t ≥ 0`, the per-zone temporal test on the
+index *as the builder builds it* keeps the zone. PARTIAL: `0 ≤ t`; the calendar in front of this
+test is C08's subject (its bucket ids are truncated to 32 bits and zones with a negative bound
+are never registered — the `zone` and `seg` streams model both). -/
 theorem C16_pruner_sound_partial (op : Op) (s : List Char) (t x : Int) (zone : List Int)
     (hp : parseStr s = some t) (h0 : 0 ≤ t) (h1 : t ≤ i64Max) (hop : op ≠ .neq)
     (hx : x ∈ zone) (hsat : op.eval x t = true) :
-    zoneKept op (prunerTs (SV.ofJson (.str s))) zone = some true := by
+    ztiKeeps op (prunerTs (SV.ofJson (.str s))) (ztiBuild zone Snel.Gen.C16.ztiStrideField)
+      = some true := by
   rw [(C16_sites_agree_partial s t hp h0 h1).2.2.2.2.1]
+  have hs : ((Snel.Gen.C16.ztiStrideField : Nat) : Int) = 1 := by decide
+  rw [hs, ztiKeeps_stride1]
   exact zoneKept_sound op t zone x hx hop hsat
 
 /-- For a negative literal the zone test drops zones that hold matching rows: `ts >= "-5"`
 against a zone holding −3. -/
 theorem C16_pruner_sound_fails :
     ∃ (op : Op) (s : List Char) (t x : Int) (zone : List Int), parseStr s = some t ∧ op ≠ .neq ∧
-      x ∈ zone ∧ op.eval x t = true ∧ zoneKept op (prunerTs (SV.ofJson (.str s))) zone = some false :=
+      x ∈ zone ∧ op.eval x t = true ∧
+      ztiKeeps op (prunerTs (SV.ofJson (.str s))) (ztiBuild zone Snel.Gen.C16.ztiStrideField) = some false :=
   ⟨.gte, ['-', '5'], -5, -3, [-3], by decide, by decide, by decide, by decide, by decide⟩
 
 /-! ## Buckets -/
